@@ -42,8 +42,16 @@ m("C08", "proof",
   "<= segment length (C08_chunks_tile, C08_chunk_pdus_content); a valid request is served exactly "
   "(C08_valid_request_served), an inverted/out-of-range one raises InvalidNakPdu with the state unchanged "
   "(C08_invalid_request_rejected); (0,0) re-sends the Metadata (C08_metadata_request); resumption "
-  "restores the step and touches nothing else (C08_resume, C08_nak_enters_retransmission).",
-  "Lean 4 theorems (loop invariant by induction on fuel) + differential correspondence", "§6 C08",
+  "restores the step and touches nothing else (C08_resume, C08_nak_enters_retransmission). For a NAK with ANY "
+  "NUMBER of requests: the answers to the valid requests are queued in request order and nothing else changes "
+  "(C08_request_answered, C08_requests_answered, by induction over the request list); the first invalid request "
+  "stops the loop with InvalidNakPdu, earlier answers queued, nothing for it or later ones "
+  "(C08_first_invalid_stops); as whole state_machine calls in each step that accepts a NAK - streaming file "
+  "data, awaiting the EOF ACK, awaiting Finished - (C08_nak_call, C08_nak_call_invalid); the call after the "
+  "retransmission equals that call on the sender as it was before the NAK, for any packet "
+  "(C08_resume_call).",
+  "Lean 4 theorems (loop invariants by induction on fuel and on the request list) + differential correspondence",
+  "§6 C08",
   ["a NAK whose k-th request is invalid: the k-1 earlier requests were already queued (file data only)"])
 m("C19", "proof",
   "source sessions with valid, invalid (missing file, unknown destination) and premature put requests, "
